@@ -25,6 +25,9 @@ import surf_common as S
 
 LEVEL = "model_checking"
 DRIVERS = S.DRIVERS
+META = {"text": "Timeline.tla is the reference timeline of generated concurrent workloads; TLC checks on it, in every state of every scenario, work conservation, feasibility of the rates, the k-equal-execs-on-n-cores rule and monotonicity of the remaining work, and prints the exact state after every step; the real models, observed at every Engine::on_time_advance (remaining work, host and link loads, capacities), must never show an increasing remaining work, a positive one before completion or a non-zero one at completion, a load above the capacity, and must match the reference remaining work, loads and finish dates (1e-9).",
+        "note": "Trusted: TLC, the driver (model action remains = Activity::get_remaining, Host::get_load, Link::get_load), the documented weighted max-min sharing rule used by the reference (the solver itself is decided by C15-C18). Reading the remaining work updates a lazily updated action: half of the runs read it at every third clock advance only. Disk workloads are restricted to parameters for which the whole-byte rounding of disk_s19.cpp is exact; disk loads are not observable.",
+        "technique": "TLC runs the reference timeline with invariants (M) and prints exact states (G) + observation of the real models at every time advance (T, surf_driver) + exact rational/double comparison"}
 NETCFG = ["--cfg=network/model:CM02", "--cfg=network/TCP-gamma:0", "--cfg=network/crosstraffic:0"]
 G = F(1, 8)
 CAP_TOL = F(1, 10 ** 9)
@@ -138,7 +141,7 @@ def mismatches(sc, obs, fin, recs):
 
 def run(ctx):
     import os
-    n = 200 if ctx.quick else 4000
+    n = 200 if ctx.quick else 2000
     if os.environ.get("SURF_DEV_N"):
         n = int(os.environ["SURF_DEV_N"])
     scens = [gen_scenario(ctx.rng) for _ in range(n)]
